@@ -40,6 +40,18 @@ def regenerate(repo, outdir):
             status[fn] = 'unsupported: %s' % e
     _write(os.path.join(outdir, 'Gen_bitstring_h.v'), HEADER % 'src/fqe/lib/bitstring.h' + text)
     res['Gen_bitstring_h'] = {'leaves': status, 'ok': all(not s.startswith('unsupported') for s in status.values())}
+    # --- fqe/lib/bitstring.h once more, as syntax trees for the C semantics of CExpr.v
+    text, status = '', {}
+    for fn in ('count_bits_between', 'count_bits_above'):
+        try:
+            t, _n = c2coq.translate_ast_function(src, fn)
+            text += t
+            status[fn] = 'ast'
+        except c2coq.Unsupported as e:
+            status[fn] = 'unsupported: %s' % e
+    _write(os.path.join(outdir, 'Gen_bitstring_h_ast.v'),
+           (HEADER % 'src/fqe/lib/bitstring.h').replace('Import GenBase.', 'Import GenBase CExpr.') + text)
+    res['Gen_bitstring_h_ast'] = {'leaves': status, 'ok': all(v == 'ast' for v in status.values())}
     # --- fqe/lib/bitstring.c (Gosper step)
     src = open(os.path.join(repo, 'src/fqe/lib/bitstring.c')).read()
     try:
